@@ -26,6 +26,7 @@ fn run_case(line: &str) -> String {
       "comp" => tree::comp_case(&line_owned),
       "thist" => hist::hist_case(&line_owned, false),
       "chist" => hist::hist_case(&line_owned, true),
+      "fhist" => hist::fhist_case(&line_owned),
       "pair" => hist::pair_case(&mut t),
       k => panic!("unknown case kind {}", k),
     }
